@@ -62,7 +62,7 @@ func c02Order(p *Program, r *Report) {
 			}
 			nroutes++
 			key := s.fn + ":" + e.Method + " " + e.Pattern
-			if e.Method == "GET" && strings.HasPrefix(e.Pattern, "<") && len(e.Handlers) == 1 && e.Handlers[0] == "<closure>" {
+			if e.Method == "GET" && strings.HasPrefix(e.Pattern, "<") && len(e.Handlers) == 1 && (e.Handlers[0] == "<closure>" || strings.HasPrefix(e.Handlers[0], "s3api.")) {
 				// frozen exception: unauthenticated liveness probe, returns no data
 				ok := c02HealthHarmless(p, e)
 				r.Check(ok, "R-C02-1", key+":health", p.Pos(e.Pos), "exempt: health probe returns only a status", "the route registered ahead of authentication is not a bare status probe")
@@ -94,6 +94,19 @@ func c02Order(p *Program, r *Report) {
 // the health closure only calls ctx.SendStatus (the closure is found by the position of the function literal
 // in the registration, wherever the registration was moved to)
 func c02HealthHarmless(p *Program, e regEntry) bool {
+	if len(e.Closures) == 0 && len(e.Handlers) == 1 {
+		// a named function of the package as handler
+		cl := p.FuncOpt(e.Handlers[0])
+		if cl == nil || !isFiberHandlerSig(cl.Signature) {
+			return false
+		}
+		for _, c := range callsIn(cl) {
+			if calleeName(c) != fiberCtx+".SendStatus" {
+				return false
+			}
+		}
+		return true
+	}
 	if len(e.Closures) != 1 {
 		return false
 	}
